@@ -48,18 +48,23 @@ ConcChecked(r) ==
 
 (* ---- one look-up / one walk on one backend ------------------------------------- *)
 \* got = [has, hase, c, ce, cb, cbe, cs, cse]
-LookupOK(fold, fs, n, x) ==
-    LET want == Lookup(fold, fs, n) IN
-    IF want = {} THEN /\ x.hase = "" /\ ~x.has
-                      /\ x.ce # "" /\ x.cbe # "" /\ x.cse # ""       \* refused by some exception
-    ELSE /\ x.hase = "" /\ x.has
-         /\ x.ce = "" /\ x.c \in want /\ x.cbe = "" /\ x.cb \in want /\ x.cse = "" /\ x.cs \in want
+\* pc/pe (by name) and hc/he (through the File handle of the look-up): content and exception of every
+\* public way of reading - open_bin, open_str, read_kv1, read_prop, File.open_*, cache_key (the
+\* driver lists them; lists are collapsed to one entry when all ways agree)
+AllYield(cs, es, want) == Len(cs) >= 1 /\ \A k \in 1..Len(cs) : es[k] = "" /\ cs[k] \in want
+AllFail(es) == Len(es) >= 1 /\ \A k \in 1..Len(es) : es[k] # ""
+\* a handle denotes one file: every way of reading through it yields the same content
+OneFile(cs, es) == Len(cs) >= 1 /\ \A k \in 1..Len(cs) : es[k] = "" /\ cs[k] = cs[1]
+ReadsOK(x, want) ==
+    IF want = {} THEN x.hase = "" /\ ~x.has /\ AllFail(x.pe) /\ x.hc = <<>>
+    ELSE x.hase = "" /\ x.has /\ AllYield(x.pc, x.pe, want) /\ AllYield(x.hc, x.he, want) /\ OneFile(x.hc, x.he)
+LookupOK(fold, fs, n, x) == ReadsOK(x, Lookup(fold, fs, n))
 GotKeys(fold, items) == {Key(fold, items[k].n) : k \in 1..Len(items)}
 CountKey(fold, items, key) == Cardinality({k \in 1..Len(items) : Key(fold, items[k].n) = key})
 \* every listed name, looked up, yields that file (also when it was listed by mistake)
 ItemsLookupOK(fold, fs, items) ==
     \A k \in 1..Len(items) :
-        /\ items[k].ce = "" /\ items[k].c \in Lookup(fold, fs, items[k].n)
+        /\ AllYield(items[k].hc, items[k].he, Lookup(fold, fs, items[k].n)) /\ OneFile(items[k].hc, items[k].he)
         /\ items[k].le = "" /\ items[k].l \in Lookup(fold, fs, items[k].n)
 
 FsChecked(r) ==
@@ -109,8 +114,7 @@ ChainChecked(r) ==
          \* the answer is the content of the first member that has prefix + name (how, and how often,
          \* the chain consults its members is its own business)
          /\ (trust =>
-              ((IF want = {} THEN ~x.has /\ x.hase = "" /\ x.ce # "" /\ x.cbe # ""
-                ELSE x.has /\ x.hase = "" /\ x.ce = "" /\ x.cbe = "" /\ x.c \in want /\ x.cb \in want)
+              (ReadsOK(x, want)
                  \/ Report("chain.lookup.result", "lookups", j, 0, want)))
          \* get_system names that member
          /\ (trust =>
@@ -156,14 +160,22 @@ ChainChecked(r) ==
                 /\ NoDupKeys(fold, got)
                 /\ \A k \in 1..Len(w.items) :
                      LET cs == ChainWalkContents(fold, ch, d, Key(fold, w.items[k].n)) IN
-                     /\ w.items[k].ce = "" /\ w.items[k].c \in cs
+                     /\ AllYield(w.items[k].hc, w.items[k].he, cs) /\ OneFile(w.items[k].hc, w.items[k].he)
                      /\ w.items[k].le = "" /\ w.items[k].l \in cs)
                  \/ Report("chain.walk.result", "walks", j, 0, ChainWalkKeys(fold, ch, d))))
          \* the walk that keeps repeats lists the same names, each occurrence being some member's file
          /\ (trust =>
               ((/\ GotKeys(fold, w.rep) = ChainWalkKeys(fold, ch, d)
-                /\ \A k \in 1..Len(rep) : \E m \in 1..M : \E e \in MemberWalk(fold, ch[m], d) :
-                       Key(fold, e.n) = Key(fold, rep[k].n) /\ e.c = rep[k].c)
+                \* ... and the handle denotes that member's file whichever way it is read
+                /\ \A k \in 1..Len(rep) :
+                     /\ OneFile(w.rep[k].hc, w.rep[k].he)
+                     /\ \E m \in 1..M : \E e \in MemberWalk(fold, ch[m], d) :
+                            Key(fold, e.n) = Key(fold, rep[k].n) /\ e.c = rep[k].c
+                \* every file of every member occurs
+                \* (of stored names differing only in case a member lists one)
+                /\ \A m \in 1..M : \A e \in MemberWalk(fold, ch[m], d) :
+                     \E k \in 1..Len(rep) : \E e2 \in MemberWalk(fold, ch[m], d) :
+                        Key(fold, e.n) = Key(fold, rep[k].n) /\ Key(fold, e2.n) = Key(fold, e.n) /\ e2.c = rep[k].c)
                  \/ Report("chain.walk.repeat", "walks", j, 0, ChainWalkKeys(fold, ch, d))))
 
 Checked == i = 0 \/ LET r == Recs[i] IN
